@@ -5,8 +5,11 @@ package main
 
 import (
 	"crypto"
+	"crypto/ecdsa"
 	"crypto/ed25519"
+	"crypto/elliptic"
 	"crypto/rand"
+	"crypto/rsa"
 	"crypto/x509"
 	"net"
 	"encoding/hex"
@@ -21,6 +24,7 @@ import (
 	"time"
 
 	"github.com/Cloud-Foundations/keymaster/lib/instrumentedwriter"
+	"golang.org/x/crypto/ssh"
 	"github.com/Cloud-Foundations/keymaster/lib/vip"
 )
 
@@ -440,6 +444,42 @@ func TestVerifReplayLoginPageMarkup(t *testing.T) {
 	t.Logf("login_destination=%q -> attribute value %q followed by %q", dest, value, after)
 	if !strings.HasPrefix(after, ">") || strings.ContainsAny(value, "<>") {
 		t.Logf("REPLAY-CONFIRMED: request text closes the attribute / supplies markup: ...VALUE=\"%s\"%s", value, after)
+	} else {
+		t.Logf("REPLAY-NOT-REPRODUCED")
+	}
+}
+
+// C19: a genuine, strong key of a type the keymaster client generates must not be refused by the server's
+// key-line gate. The model names the key type (first word of the line); a real key of that type is generated.
+func TestVerifReplayOfferedKeyType(t *testing.T) {
+	in := verifReplayInputs(t)
+	var signer crypto.Signer
+	var err error
+	switch in["key_type"] {
+	case "ssh-rsa":
+		signer, err = rsa.GenerateKey(rand.Reader, 2048)
+	case "ecdsa-sha2-nistp256":
+		signer, err = ecdsa.GenerateKey(elliptic.P256(), rand.Reader)
+	case "ecdsa-sha2-nistp384":
+		signer, err = ecdsa.GenerateKey(elliptic.P384(), rand.Reader)
+	case "ssh-ed25519":
+		_, signer, err = ed25519.GenerateKey(rand.Reader)
+	default:
+		t.Logf("REPLAY-NOT-REPRODUCED: the client does not generate %q keys", in["key_type"])
+		return
+	}
+	if err != nil {
+		t.Fatal(err)
+	}
+	pub, err := ssh.NewPublicKey(signer.Public())
+	if err != nil {
+		t.Fatal(err)
+	}
+	line := string(ssh.MarshalAuthorizedKey(pub))
+	key, userErr, err := getValidSSHPublicKey(line)
+	t.Logf("client key line %q... -> key accepted=%v userErr=%v err=%v", line[:40], key != nil, userErr, err)
+	if key == nil {
+		t.Logf("REPLAY-CONFIRMED: the server refuses a %s key, which the client offers", in["key_type"])
 	} else {
 		t.Logf("REPLAY-NOT-REPRODUCED")
 	}
